@@ -67,7 +67,7 @@ SPEC = dict(
                  ('keys.py generator decision lines->Generated/MnemonicNew.lean', arith_adnl.regenerator('MnemonicNew'))],
     lean_targets=['TonVerif.Proofs.SrcAdnl', 'TonVerif.Proofs.SrcAdnlLoop'],
     design_ref='DESIGN.md §6 C20',
-    rule='channel case = (seed a, seed b, id variant: natural/swapped/equal/prefix/empty, plaintext length 0..4096 incl. block boundaries), both directions; '
+    rule='plaintexts that are / begin with / contain every identifier the sending channel derives (aes key ids, key ids, public keys, keys, bytes attributes of the library objects, source bytes literals) on natural / swapped / equal / self channels, both directions; channel case = (seed a, seed b, id variant: natural/swapped/equal/prefix/empty, plaintext length 0..4096 incl. block boundaries), both directions; '
          'plaintext lengths around every int literal of the current ciphers.py / signature.py / keys.py (and the powers of two next to it) up to 4 MiB; self channel a=b; cipher-guard case = (key length, data length) around 16/20/32; sign case = (seed, message, one alteration of message/key/signature); '
          'mnemonic case = one mnemonic_new() output (validated, derived twice, compared with hashlib/libsodium) or one recorded os.urandom stream; '
          'distinct = distinct inputs; non-trivial = plaintext/message non-empty or structural case',
@@ -272,6 +272,78 @@ def source_size_cases(ctx):
         check_sign(ctx, rng.randbytes(32), rng.randbytes(n), rng.randbytes(32))
     for n in rng.sample([n for n in sizes if 4200 < n <= 1 << 17] or [4201], 3):
         check_sign(ctx, rng.randbytes(32), rng.randbytes(n), rng.randbytes(32))
+
+
+def derived_identifiers(a, b, ida, idb):
+    """every byte string the two ends of a channel DERIVE (independently, from the protocol description: libsodium + hashlib, no repo code) plus
+    every bytes-valued attribute the library's channel / client / server objects hold, plus the bytes literals of the current source:
+    {name: bytes}.  These are the values a payload that quotes / echoes / forwards protocol data begins with."""
+    from pytoniq_core.crypto.ciphers import Client, Server, AdnlChannel
+    from harness.gen.literals import source_literals
+    pa, pb = crypto_sign_seed_keypair(a)[0], crypto_sign_seed_keypair(b)[0]
+    RA, RB = RefChannel(a, pb, ida, idb), RefChannel(b, pa, idb, ida)
+    out = {}
+    for n, R in (('A', RA), ('B', RB)):
+        out[f'{n}.enc-key'] = R.enc
+        out[f'{n}.dec-key'] = R.dec
+        out[f'{n}.enc-aes-key-id'] = sha(MAGIC_AES + R.enc)
+        out[f'{n}.dec-aes-key-id'] = sha(MAGIC_AES + R.dec)
+    out.update({'A.pub': pa, 'B.pub': pb, 'A.key-id': sha(MAGIC_KEY + pa), 'B.key-id': sha(MAGIC_KEY + pb), 'A.local-id': ida, 'B.local-id': idb,
+                'A.seed': a, 'B.seed': b, 'sha256-empty': sha(b'')})
+    try:
+        ca, cb = Client(a), Client(b)
+        objs = [('libA', AdnlChannel(ca, Server('', 0, pb), ida, idb)), ('libB', AdnlChannel(cb, Server('', 0, pa), idb, ida)), ('libClientA', ca), ('libClientB', cb)]
+        for n, o in objs:
+            for k, v in sorted(vars(o).items()):
+                if isinstance(v, (bytes, bytearray)) and len(v) >= 4:
+                    out[f'{n}.{k}'] = bytes(v)
+    except Exception:
+        pass
+    for i, lit in enumerate(source_literals(ADNL_FILES).bytes):
+        if lit:
+            out[f'source-literal-{i}'] = lit
+    # one entry per distinct value (first name wins)
+    seen, uniq = set(), {}
+    for k, v in out.items():
+        if v and v not in seen:
+            seen.add(v)
+            uniq[k] = v
+    return uniq
+
+
+def identifier_plaintexts(rng, ident):
+    """plaintexts that ARE / begin with / contain at offset 1 / end with the identifier, followed by 0-bytes, 1-bytes, random bytes (lengths that make
+    the whole thing shorter than, equal to and longer than a packet head of 64 bytes), the identifier twice, and its near misses (one byte short,
+    last bit flipped) - the same for every identifier."""
+    z = len(ident)
+    out = [ident, ident + bytes(1), ident + bytes(32), ident + b'\x01' * 33, ident + rng.randbytes(1), ident + rng.randbytes(31), ident + rng.randbytes(32),
+           ident + rng.randbytes(rng.randrange(33, 200)), ident + ident, ident + sha(ident) + rng.randbytes(rng.randrange(0, 64)),
+           rng.randbytes(1) + ident + rng.randbytes(rng.randrange(0, 64)), rng.randbytes(rng.randrange(2, 64)) + ident,
+           ident[:-1] + bytes([ident[-1] ^ 1]) + rng.randbytes(40)]
+    if z > 1:
+        out += [ident[:-1], ident[1:] + rng.randbytes(40)]
+    return out
+
+
+def identifier_cases(ctx):
+    """Round 11 class: plaintexts that begin with / contain PROTOCOL CONSTANTS and KEY-DERIVED IDENTIFIERS of the very channel that sends them
+    (aes key ids of both directions, key ids and public keys of both peers, the keys themselves, every bytes attribute the library's objects hold,
+    the bytes literals of the source) - both directions, both id orderings, equal ids and the self channel; same oracle as every channel case."""
+    rng = ctx.rng
+    for variant in ('natural', 'swapped', 'equal', 'self'):
+        a, b = rng.randbytes(32), rng.randbytes(32)
+        if variant == 'self':
+            b = a
+        ka, kb = sha(MAGIC_KEY + crypto_sign_seed_keypair(a)[0]), sha(MAGIC_KEY + crypto_sign_seed_keypair(b)[0])
+        ida, idb = {'natural': (ka, kb), 'swapped': (kb, ka), 'equal': (ka, ka), 'self': (ka, ka)}[variant]
+        ids = derived_identifiers(a, b, ida, idb)
+        ctx.count('identifiers', len(ids))
+        msgs = []
+        for name, ident in ids.items():
+            ms = identifier_plaintexts(rng, ident)
+            ctx.count('identifier-plaintexts', len(ms))
+            msgs += ms
+        check_channel(ctx, a, b, ida, idb, msgs, 'identifiers-' + variant, model_max=80)
 
 
 def channel_cases(ctx):
@@ -795,6 +867,9 @@ def run(ctx):
         src_search(ctx)
         if ctx.failures:              # the differing points already gave concrete failing inputs: report them
             return
+    identifier_cases(ctx)
+    if ctx.search and ctx.failures:
+        return
     source_size_cases(ctx)
     channel_cases(ctx)
     cipher_cases(ctx)
